@@ -108,7 +108,7 @@ theorem inv_after_start (isServer : Bool) (tag tsn rp : Nat) (now : Int) (ht : t
       refine ⟨⟨by simp [Ep.init], ⟨rp, rfl, hr⟩, by simp [Ep.init], ht, by simp [Ep.init, MAX_STREAMS], by simp [Ep.init, MAX_STREAMS]⟩,
         ⟨by simp [Ep.init], by simp [Ep.init], by simp [Ep.init], by simp [Ep.init], by simp [Ep.init],
          by simp [Ep.init], by simp [Ep.init], by simp [Ep.init]⟩,
-        ⟨by simp [Ep.init], by simp [Ep.init], rfl, rfl, by simp [Ep.init], ?_⟩, ⟨by simp [Ep.init]⟩, ?_, ?_, ?_⟩
+        ⟨by simp [Ep.init], by simp [Ep.init], rfl, rfl, by simp [Ep.init], ?_⟩, ⟨by simp [Ep.init]⟩, ?_, ?_, ?_, rfl⟩
       · simp only [Ep.init]; omega
       · simp only [Ep.init, InRange32]; omega
       · simp only [Ep.init, InRange32]; omega
